@@ -16,7 +16,7 @@ def is_url(value: str) -> None:
 
 
 def is_int(value: int) -> None:
-    if not isinstance(value, int):
+    if not isinstance(value, int) or isinstance(value, bool):
         raise ValueError("must be an int")
 
 
